@@ -87,7 +87,7 @@ static std::vector<CheckDef> g_checks = {
           { "a guard page detects out-of-range accesses that cross into the neighbouring page from the flush side; the opposite side is covered by "
             "canaries (writes) and by the other placement in other runs (reads)",
             "documented alignment rules are honoured (16-byte CBC IV and key schedules, 64-byte _nt buffers, 16-byte GCM key data)" } },
-        { "C14", "exploration", { { "stream", 2 }, { "oneshot", 4 }, { "streamhuge", 0, 8 } }, 30000, 3000000, 50, 900, false, false,
+        { "C14", "exploration", { { "stream", 2 }, { "oneshot", 4 }, { "gcmhuge", -4 }, { "streamhuge", 0, 8 } }, 30000, 3000000, 50, 900, false, false,
           "cases: AES entry points of every family (key expansion, GCM precompute/init/update/finalize/one-shot, CBC, XTS) reached from the "
           "streaming GCM clients and the one-shot client; after each call all 128 16-byte lanes of zmm0-31 and every byte offset of the "
           "dirtied part of the 64 KiB dead stack are searched for the call's secret set; distinct_nontrivial: distinct (entry/kind, family, "
@@ -232,6 +232,8 @@ static Sim *get_sim(const std::string &n)
                 s = make_stream_sim();
         else if (n == "streamhuge")
                 s = make_streamhuge_sim();
+        else if (n == "gcmhuge")
+                s = make_gcmhuge_sim();
         else if (n == "oneshot")
                 s = make_oneshot_sim();
         else if (n == "dispatch")
